@@ -47,5 +47,31 @@ RuleClashEarlier(b) == { j \in 1..Len(b) : \E k \in 1..Len(b) : ClashPair(b, j, 
 RuleClashMembers(b) == { i \in 1..Len(b) : \E j, k \in 1..Len(b) : ClashPair(b, j, k) /\ i \in {j, k} }
 RuleAccepts(b) == RuleE400(b) = {} /\ RuleClashMembers(b) = {}
 
+(***************************************************************************)
+(* Modules with several functions (dimension audit).  An item of kind "F"  *)
+(* (one source line: `} fn g<k>() { var x: i32 = 0;`) at nesting depth 0   *)
+(* ends one function body and opens the next.  The rules above speak about *)
+(* ONE function body: for a module they are applied to every segment       *)
+(* Seg(b, f) on its own and their verdicts are lifted back to positions of *)
+(* the whole item sequence (local position q of the segment that starts    *)
+(* after position f is position f + q; f = 0 for the first function).      *)
+(* Without "F" items FStarts(b) = {0} and Seg(b, 0) = b: nothing changes.  *)
+(***************************************************************************)
+IsF(b, i) == b[i].k = "F"
+FStarts(b) == {0} \cup { f \in 1..Len(b) : IsF(b, f) }
+FEnd(b, f) == LET later == { g \in FStarts(b) : g > f }
+              IN IF later = {} THEN Len(b) + 1 ELSE CHOOSE g \in later : \A h \in later : g <= h
+Seg(b, f) == SubSeq(b, f + 1, FEnd(b, f) - 1)
+\* the start of the function that position p (not itself an "F" item, or the F item that opens it) lies in
+FOf(b, p) == LET fs == { f \in FStarts(b) : f <= p } IN CHOOSE f \in fs : \A g \in fs : g <= f
+Lift(f, S) == { f + q : q \in S }
+MRuleE400(b) == UNION { Lift(f, RuleE400(Seg(b, f))) : f \in FStarts(b) }
+MRuleClashEarlier(b) == UNION { Lift(f, RuleClashEarlier(Seg(b, f))) : f \in FStarts(b) }
+MRuleClashMembers(b) == UNION { Lift(f, RuleClashMembers(Seg(b, f))) : f \in FStarts(b) }
+MRuleAccepts(b) == \A f \in FStarts(b) : RuleAccepts(Seg(b, f))
+MLegalTargets(b, i) == LET f == FOf(b, i) IN Lift(f, LegalTargets(Seg(b, f), i - f))
+MBadGoto(b, i) == IsG(b, i) /\ MLegalTargets(b, i) = {}
+MClashPair(b, j, k) == LET f == FOf(b, j) IN FOf(b, k) = f /\ j > f /\ k > f /\ ClashPair(Seg(b, f), j - f, k - f)
+
 
 =============================================================================
